@@ -10,7 +10,7 @@ MODULE_LABEL = {
     "dill._dill": "dangerous", "urllib.parse": "dangerous",
     "collections": "benign", "copy": "benign", "importlib": "benign", "json": "benign", "re": "benign", "typing": "benign",
     "shlex": "benign", "gzip": "benign", "io": "benign", "_io": "benign", "_codecs": "benign", "copyreg": "benign",
-    "operator": "benign", "functools": "benign", "datetime": "benign", "pickle": "benign", "runpy": "benign",
+    "codecs": "benign", "operator": "benign", "functools": "benign", "datetime": "benign", "pickle": "benign", "runpy": "benign",
     "commands": "nonstd", "popen2": "nonstd", "Queue": "nonstd",  # standard library of Python 2.7 only
     "vp_sink": "nonstd", "numpy": "nonstd", "torch.storage": "nonstd", "torch": "nonstd", "vp_objs": "nonstd",
     "numpy.testing._private.utils": "nonstd", "m": "nonstd", "transformers": "nonstd",
@@ -29,6 +29,8 @@ VOCAB = [
     ("collections", "OrderedDict"), ("io", "BytesIO"), ("_codecs", "encode"), ("copyreg", "_reconstructor"),
     ("commands", "getoutput"), ("popen2", "popen2"),
     ("vp_sink", "hit"), ("numpy", "dtype"), ("torch.storage", "_load_from_bytes"),
+    # a dotted (protocol 4) name: the callee is reached by attribute traversal through a benign module
+    ("codecs", "builtins.len"), ("collections", "abc.sys.exit"),
 ]
 
 
@@ -66,6 +68,9 @@ def floor_of(world):
                 elif lab == "nonstd":
                     f = max(f, 3)
                     why.append(f"calls non-stdlib {callee.module}.{callee.name} (>=LIKELY_UNSAFE)")
+                elif "." in callee.name:
+                    f = max(f, 3)
+                    why.append(f"calls {callee.module}.{callee.name}, a callee computed by attribute traversal (>=LIKELY_UNSAFE)")
             elif isinstance(callee, IStub):
                 f = max(f, 3)
                 why.append("calls a computed callee (>=LIKELY_UNSAFE)")
